@@ -4,6 +4,7 @@ Every execution of a manager scenario produces a World (event log, FakeS3
 tables, destinations).  Oracles are functions world -> [(sig, msg)], the sig
 starts with the property id; a property's check reports only its own sigs.
 """
+import json
 import os
 import time
 
@@ -1047,6 +1048,10 @@ def explore_job(job):
         viol.append({'sig': v['sig'], 'msg': v['msg'] + f' | scenario={_scn_brief(scn)} choices={ch}',
                      'replay': {'kind': 'manager', 'scn': scn, 'choices': ch, 'want': want,
                                 'monitor_fs': mon}})
+    for smp in st.samples:
+        smp['scenario'] = job.get('name', '')
+        smp['transfers'] = scn.get('transfers')
+        smp['budget'] = job['bound']
     return {'name': job.get('name', ''), 'stats': st, 'violations': viol}
 
 
@@ -1087,6 +1092,7 @@ def run_catalogue(jobs, tier, prop, extra_rule=''):
         'scenarios': len(jobs),
         'per_scenario': per if len(per) <= 60 else {k: per[k] for k in list(per)[:60]},
         'known': tot.known,
+        'deviation_budgets_used': sorted({json.dumps(j['bound'], sort_keys=True) for j in jobs}),
         'executions_with_injected_fault': tot.counters.get('n_injected', 0),
         'executions_with_cancel_before_done': tot.counters.get('inject_effective', 0),
         'maxima_observed': tot.maxima,
